@@ -363,6 +363,26 @@ def rule_errors(ctx: Ctx) -> None:
             ctx.check(got == want, "R-ANGLEWRAP", "calculate_error", "yaw-wrap",
                       f"the yaw error is wrapped by {sorted(got)}; it must be shifted by -2*pi above pi and by +2*pi below -pi (whole turns only)", fi=fi, expected=str(sorted(want)), found=str(sorted(got)))
     ctx.require({"plain", "yaw", "distance", "nn_plane"} <= seen, f"calculate_error: column kinds {sorted(seen)}")
+    # after the difference: NaN removal iff asked, the norm of the kind, and the column's errors are kept
+    POST = {"distance": ["err.reshape(-1,2)", "np.linalg.norm(err,axis=1)"], "nn_plane": ["err.reshape(-1,2,3)", "np.linalg.norm(err,axis=2)", "np.mean(err,axis=1)"], "yaw": [], "plain": []}
+    for bp in lp.body:
+        f = {S(k): v for k, v in bp.facts.items()}
+        kind = "distance" if f.get(f"eq:{col}=='distance'") else "nn_plane" if f.get(f"eq:{col}=='nn_plane'") else "yaw" if f.get(f"eq:{col}=='yaw'") else "plain"
+        rn = f.get("truthy:remove_nan")
+        chain = [strip_v(S(e.value)) for e in bp.effects if e.kind == "assign" and e.recv == "err"][1:]
+        want = (["err[~np.isnan(err)]"] if rn else []) + POST[kind]
+        ctx.check(rn is not None and chain == want, "C19-errors", "calculate_error", f"post:{kind}:remove_nan={rn}",
+                  f"after the difference the {kind} error goes through {chain}; expected {want} (NaN rows removed iff asked; distance = norm of the (x, y) difference, nn_plane = mean of the two corner distances)",
+                  fi=fi, expected=str(want), found=str(chain))
+        kept = [(S(a.recv), strip_v(S(a.args[0]))) for a in appends(bp)]
+        ctx.check(kept == [("errors", "err")], "C19-errors", "calculate_error", f"kept:{kind}:{rn}", f"the column's errors are kept as {kept}; expected errors.append(err)", fi=fi)
+    # no paired rows -> empty result, nothing else returns early
+    for p in paths:
+        cd = {S(c[0]): c[1] for c in p.conds if isinstance(c, tuple)}
+        none_pair = [v for k, v in cd.items() if k.startswith("none:self.get_pair_results(")]
+        looped = any(e.kind == "loop" for e in p.effects)
+        ctx.check(looped == (bool(none_pair) and not any(none_pair)), "C19-errors", "calculate_error", f"early-return:{int(looped)}:{len(none_pair)}",
+                  f"errors are {'computed' if looped else 'not computed'} on a path where the paired tables are {'missing' if any(none_pair) else 'present'}", fi=fi)
     # summaries
     sq = A3 + "summarize_error.<locals>._summarize"
     ctx.require(ctx.index.has_func(sq), "summarize_error: helper _summarize not found")
@@ -542,6 +562,16 @@ def rule_selection(ctx: Ctx) -> None:
             continue
         base = f"self.get(**{S(gets[0].kwargs.get('**'))})"
         rows = f"self.filter_by_distance(distance,{base})" if sel["distance"] else base
+        nonempty = next((v for a, v in conds if a in (f"truthy:{rows}", f"cmp:0<len({rows})")), None)
+        summ = [e.name for e in p.effects if e.kind == "call" and e.name in ("summarize_ratio", "summarize_error", "get_confusion_matrix", "summarize_score") and S(e.recv) == "self"]
+        ctx.check(nonempty is not None and (sorted(summ) == ["get_confusion_matrix", "summarize_error", "summarize_ratio", "summarize_score"]) == bool(nonempty) and (bool(summ) == bool(nonempty)),
+                  "C19-selection", "PerceptionAnalyzer3D.analyze", f"tables-iff-rows:{nonempty}", f"with {'some' if nonempty else 'no'} selected rows the tables computed are {summ}; all four exactly when rows exist", fi=fi)
+        for e in p.effects:
+            if e.kind == "call" and e.name == "summarize_score" and S(e.recv) == "self":
+                kws = {k: S(v) for k, v in e.kwargs.items()}
+                sc = kws.get("scene", "")
+                ctx.check(kws.get("distance") == "distance" and kws.get("area") == "area" and (sc in ("None", "scene") or sc.startswith("kwargs") and "pop('scene')" in sc), "C19-selection", "PerceptionAnalyzer3D.analyze", "score-selection",
+                          f"the metric scores are summarised for {kws}; expected the same scene / distance / area selection", fi=fi)
         for e in p.effects:
             if e.kind == "call" and e.name in ("summarize_ratio", "summarize_error", "get_confusion_matrix") and S(e.recv) == "self":
                 n += 1
@@ -607,6 +637,47 @@ def rule_selection(ctx: Ctx) -> None:
                       f"selection `{kv}={iv}` narrows the mask by {augs}; expected {want} (a pair is kept when either of its rows matches)", fi=ff, expected=str(want), found=str(augs))
 
 
+def rule_summaries(ctx: Ctx) -> None:
+    """summarize_error: per label, every state column is summarised over that label's paired rows (ALL: the selected rows), NaN exactly when there is nothing to summarise."""
+    for cls, cols in ((A3, ("x", "y", "yaw", "length", "width", "vx", "vy", "speed", "nn_plane")), ("tool.perception_analyzer2d.PerceptionAnalyzer2D.", ("x", "y", "width", "height"))):
+        fi = ctx.func(cls + "summarize_error")
+        short = cls.split(".")[-2] + ".summarize_error"
+        for p in enum_paths(ctx, fi):
+            dfn = next((c[1] for c in p.conds if isinstance(c, tuple) and S(c[0]) == "none:df"), None)
+            ctx.require(dfn is not None, f"{short}: the `df is None` default was not recognised")
+            base = "self.df" if dfn else "df"
+            lps = [e for e in p.effects if e.kind == "loop"]
+            ctx.require(len(lps) == 1 and S(lps[0].text) == "self.all_labels", f"{short}: the label loop was not recognised")
+            lv = U(lps[0].node.target)
+            per_label = f"self.df.loc[pd.unique(self.get_ground_truth(df={base},status=['TP','FP','TN'],label={lv}).index.get_level_values(level=0))]"
+            for bp in lps[0].body:
+                cd = {S(c[0]): c[1] for c in bp.conds if isinstance(c, tuple)}
+                is_all = cd.get(f"eq:{lv}=='ALL'")
+                ctx.require(is_all is not None, f"{short}: the `ALL` test was not recognised")
+                has = next((v for k, v in cd.items() if k.startswith("truthy:pd.unique(self.get_ground_truth(")), None)
+                rows = base if is_all else per_label if has else "pd.DataFrame()" if has is False else None
+                st = [(S(strip_v(e.recv)), S(e.value)) for e in bp.effects if e.kind == "store"]
+                want = [(f"data['{c}']", f"_summarize('{c}',{rows})") for c in cols] + [(f"all_data[str({lv})]", "data")]
+                tag = "ALL" if is_all else f"label:{'rows' if has else 'empty'}"
+                ctx.check(rows is not None and st == want, "C19-errors", short, f"columns:{tag}:{int(bool(dfn))}",
+                          f"for {tag} the summaries are {[x for x in st if x not in want][:2] or 'missing ' + str([x for x in want if x not in st][:2])}; expected every state column summarised over "
+                          f"{'the selected rows' if is_all else 'the pairs whose ground truth has this label'} and stored under the label", fi=fi, expected=str(want[:2]), found=str(st[:2]))
+        fq = ctx.func(cls + "summarize_error.<locals>._summarize")
+        n = 0
+        for p in enum_paths(ctx, fq):
+            rv = p.retval
+            if not (isinstance(rv, ast.Call) and S(rv.func) == "dict"):
+                continue
+            kw = {k.arg: S(k.value) for k in rv.keywords}
+            cd = {S(c[0]): c[1] for c in p.conds if isinstance(c, tuple)}
+            empty = any(v is False for k, v in cd.items() if k.startswith("truthy:")) or any(v for k, v in cd.items() if k.startswith("eq:len(") and k.endswith("==0"))
+            odd = [k for k in cd if not (k.startswith("truthy:") or (k.startswith("eq:len(") and k.endswith("==0")))]
+            n += 1
+            ctx.check(not odd and (set(kw.values()) == {"np.nan"}) == empty and set(kw) == {"average", "rms", "std", "max", "min"}, "C19-errors", short + "._summarize", f"nan-iff-empty:{int(empty)}:{len(cd)}",
+                      f"with {'no' if empty else 'some'} rows / errors the summary is {dict(list(kw.items())[:2])} (keys {sorted(kw)}); expected all five statistics, NaN exactly when there is nothing to summarise", fi=fq)
+        ctx.require(n >= 3, f"{short}._summarize: only {n} paths")
+
+
 def rule_status_record(ctx: Ctx) -> None:
     """GroundTruthStatus.add_status: every call records the frame in the total list and in exactly the list of its status (no de-duplication: frame numbers
     restart per scene, the same ground truth is legitimately seen again with the same number)."""
@@ -653,5 +724,6 @@ def run(ctx: Ctx) -> None:
     ctx.run(rule_counts)
     ctx.run(rule_selection)
     ctx.run(rule_status_record)
+    ctx.run(rule_summaries)
     ctx.run(C03.rule_critical)  # the lists tabulated are computed from the CRITICAL ground truth (count = number of critical ground truths)
     ctx.run(G.rule_tf, ("perception_eval.tool",), "R-TF", None, 3)
